@@ -40,6 +40,13 @@ M = [  # (name, file, old, new, property)
     ('var-validate-late', 'bdd.py', "        if var not in self.vars:\n            raise ValueError(\n                f'undeclared variable \"{var}\", '\n                'the declared variables are:\\n'\n                f' {self.vars}')\n        j = self.vars[var]\n        u = self.find_or_add(j, -1, 1)\n        return u", "        j = self.vars.get(var, 0)\n        u = self.find_or_add(j, -1, 1)\n        if var not in self.vars:\n            raise ValueError(var)\n        return u", 'C17'),
     ('is-essential-lt', 'bdd.py', "        if i < iu:\n            return False\n        if i == iu:\n            return True\n        # u depends", "        if i <= iu:\n            return False\n        if i == iu:\n            return True\n        # u depends", 'C10'),
     ('succ-low-high-swapped', 'autoref.py', "        return i, wrap(v), wrap(w)", "        return i, wrap(w), wrap(v)", 'C18'),
+    ('descendants-skip-high', 'bdd.py', "        self._descendants(v, visited)\n        self._descendants(w, visited)\n        visited.add(r)", "        self._descendants(v, visited)\n        visited.add(r)", 'C18'),
+    ('descendants-no-terminal', 'bdd.py', "        for u in abs_roots:\n            visited.add(1)\n            self._descendants(u, visited)", "        for u in abs_roots:\n            self._descendants(u, visited)", 'C18'),
+    ('harmless-descendants-preorder', 'bdd.py', "        self._descendants(v, visited)\n        self._descendants(w, visited)\n        visited.add(r)", "        visited.add(r)\n        self._descendants(v, visited)\n        self._descendants(w, visited)", 'C18'),
+    ('support-prune-seen-level', 'bdd.py', "        levels.add(i)\n        # recurse", "        if i in levels:\n            return\n        levels.add(i)\n        # recurse", 'C10'),
+    ('load-memo-after-sign', 'bdd.py', "        umap[abs(u)] = r\n        if u < 0:\n            r = -r\n        return r", "        if u < 0:\n            r = -r\n        umap[abs(u)] = r\n        return r", 'C12'),
+    ('arity-binary-allows-w', '_utils.py', "        if v is None:\n            raise ValueError(\n                '`v is None`')\n        if w is not None:\n            raise ValueError(\n                f'`w is not None`, but: {w}')\n    elif op in operators['ternary']:", "        if v is None:\n            raise ValueError(\n                '`v is None`')\n    elif op in operators['ternary']:", 'C17'),
+    ('init-terminal-resets-count', 'bdd.py', "        self._ref.setdefault(u, 1)", "        self._ref[u] = 1", 'C08'),
     ('harmless-rename-local', 'bdd.py', "        g0, g1 = self._top_cofactor(g, z)\n        u0, u1 = self._top_cofactor(u, z)\n        v0, v1 = self._top_cofactor(v, z)\n        p = self._ite(g0, u0, v0)\n        q = self._ite(g1, u1, v1)\n        w = self.find_or_add(z, p, q)", "        vlo, vhi = self._top_cofactor(v, z)\n        glo, ghi = self._top_cofactor(g, z)\n        ulo, uhi = self._top_cofactor(u, z)\n        lo_branch = self._ite(glo, ulo, vlo)\n        q = self._ite(ghi, uhi, vhi)\n        w = self.find_or_add(z, lo_branch, q)", 'C01'),
     ('harmless-inline-temp', 'bdd.py', "        t = (i, v, w)\n        u = self._pred.get(t)\n        if u is not None:\n            return r * u", "        t = (i, v, w)\n        u = self._pred.get((i, v, w))\n        if u is not None:\n            return r * u", 'C02'),
 ]
